@@ -247,6 +247,15 @@ pub fn codec(out_dir: &str) -> i32 {
                 pads.push((&A16[..15], b""));
                 pads.push((&A16[..16], b""));
             }
+            // short sequences also behind long ASCII runs, ending / starting around the sizes a decoder might work in blocks of
+            let long_run: Vec<u8> = vec![b'A'; 4100];
+            if !b.is_empty() && b.len() <= 3 {
+                for blk in [32usize, 64, 100, 128, 256, 512, 1000, 1024, 2048, 4096] {
+                    for n in blk - 3..=blk + 1 {
+                        pads.push((&long_run[..n], b"ZZ"));
+                    }
+                }
+            }
             for (pad_l, pad_r) in pads {
                 let (inp, exp): (Vec<u8>, Vec<u8>) = ([pad_l, &b, pad_r].concat(), [pad_l, &t, pad_r].concat());
                 checks += 1;
@@ -321,6 +330,14 @@ pub fn codec(out_dir: &str) -> i32 {
             let mut pads16: Vec<(usize, usize)> = vec![(0, 0), (14, 2)];
             if !u.is_empty() {
                 pads16.extend([(12, 0), (13, 0), (14, 0), (15, 0), (16, 0)]);
+            }
+            // short sequences also behind long ASCII runs: a pair or a lone surrogate across the edge of any block a decoder might work in
+            if !u.is_empty() && u.len() <= 2 {
+                for blk in [32usize, 64, 100, 128, 256, 512, 1000, 1024, 2048, 4096] {
+                    for n in blk - 3..=blk + 1 {
+                        pads16.push((n, 2));
+                    }
+                }
             }
             for (nl, nr) in pads16 {
                 let pl: Vec<u16> = std::iter::repeat(b'A' as u16).take(nl).collect();
@@ -889,34 +906,62 @@ pub fn scale(out_dir: &str, thorough: bool, seed: u64) -> i32 {
         let how_name = ["reserve", "insert", "push_str"][how];
         recs.push(json!({"k":"grow","start":how_name,"len":len,"add":add,"cap1":len,"cap2":s.capacity(),"dA":st.d_a,"dR":st.d_r}));
     }
-    // ---- cloning at length
+    // ---- cloning at length, from every kind of owner: a buffer already shared, a sole owner with an exact buffer, with
+    // kilobytes of reserved room, with most of a long text cut off, after one amortised growth step
     for len in [17usize, 100, 4096, 65536, 1 << 20] {
         for via in ["clone", "clone_from", "from_ref", "tls"] {
-            for truncated in [false, true] {
-                let a = LeanString::from("q".repeat(len).as_str());
-                let mut src = a.clone();
-                if truncated {
-                    src.truncate(len / 2 + 9);
-                }
-                let before = shim::begin_call(&[]);
-                let c = match via {
-                    "clone" => src.clone(),
-                    "clone_from" => {
-                        let mut d = LeanString::new();
-                        d.clone_from(&src);
-                        d
+            for owner in ["shared", "unique", "spare", "cut", "grown"] {
+                for truncated in [false, true] {
+                    let text = "q".repeat(len);
+                    let (a, mut src): (Option<LeanString>, LeanString) = match owner {
+                        "shared" => {
+                            let a = LeanString::from(text.as_str());
+                            let s = a.clone();
+                            (Some(a), s)
+                        }
+                        "unique" => (None, LeanString::from(text.as_str())),
+                        "spare" => {
+                            let mut s = LeanString::with_capacity(len + 8192);
+                            s.push_str(&text);
+                            (None, s)
+                        }
+                        "cut" => {
+                            let mut s = LeanString::from("q".repeat(len + 6000).as_str());
+                            s.truncate(len);
+                            (None, s)
+                        }
+                        _ => {
+                            let mut s = LeanString::from(&text[1..]);
+                            s.push('q');
+                            (None, s)
+                        }
+                    };
+                    if truncated {
+                        src.truncate(len / 2 + 9);
                     }
-                    "from_ref" => LeanString::from(&src),
-                    _ => src.to_lean_string(),
-                };
-                let st = shim::end_call(before);
-                let sameptr = c.as_ptr() == src.as_ptr();
-                let eq = c == src && c.as_str() == src.as_str();
-                let rcok = c.__verif_refcount() == Some(3);
-                let expect = src.as_str().to_string();
-                drop(src);
-                let survives = c.as_str() == expect && a.len() == len;
-                recs.push(json!({"k":"bigclone","via":via,"len":c.len(),"truncated":truncated,"dA":st.d_a,"dR":st.d_r,"sameptr":sameptr,"eq":eq,"survives":survives,"rcok":rcok}));
+                    let holders = if a.is_some() { 3 } else { 2 };
+                    let before = shim::begin_call(&[]);
+                    crate::gate::take_extra();
+                    let c = match via {
+                        "clone" => crate::gate::mx(|| src.clone()),
+                        "clone_from" => {
+                            let mut d = LeanString::new();
+                            crate::gate::mx(|| d.clone_from(&src));
+                            d
+                        }
+                        "from_ref" => crate::gate::mx(|| LeanString::from(&src)),
+                        _ => crate::gate::mx(|| src.to_lean_string()),
+                    };
+                    let st = shim::end_call(before);
+                    let extra = crate::gate::take_extra();
+                    let sameptr = c.as_ptr() == src.as_ptr();
+                    let eq = c == src && c.as_str() == src.as_str();
+                    let rcok = c.__verif_refcount() == Some(holders);
+                    let expect = src.as_str().to_string();
+                    drop(src);
+                    let survives = c.as_str() == expect && a.as_ref().map(|a| a.len() == len).unwrap_or(true);
+                    recs.push(json!({"k":"bigclone","via":via,"owner":owner,"len":c.len(),"truncated":truncated,"dA":st.d_a + extra,"dR":st.d_r,"sameptr":sameptr,"eq":eq,"survives":survives,"rcok":rcok}));
+                }
             }
         }
     }
